@@ -101,7 +101,131 @@ def run(tier, seed):
         ecases = ["exp %d 0 0 %x" % (pid, rng.getrandbits(64) | 1) for pid in pair_ids for _ in range(3 if quick else 12)]
         conf.run("finalexp-" + cfg, cfg, "pp", ["drv_pp.c"], ecases, "trace/PpExpTrace.tla",
                  nontrivial=lambda e: e.get("op") == "expo", min_per_shard=1, tlc_timeout=2400, heap="4g")
+    if os.environ.get("C04_EXT") == "1":
+        run_sweep(ev, conf, tier, rng)
     return conf.finish()
+
+
+# --------------------------------------------------------------------------
+# field-size sweep: the k = 8, 16, 18, 24, 48 families at their own field sizes (gate C04_EXT=1)
+# --------------------------------------------------------------------------
+# build -> (embedding degree, pairing families offered there).  One build per k first (smaller fields first).
+SWEEP = [("fp315", 24, ["oate"]), ("fp330", 16, ["oate", "tate", "weil"]), ("fp354", 18, ["oate", "tate", "weil"]),
+         ("fp544", 8, ["oate"]), ("fp575", 48, ["oate"]), ("fp317", 24, ["oate"]), ("fp508", 18, ["oate"]),
+         ("fp509", 24, ["oate"]), ("fp638", 18, ["oate"]), ("fp765", 16, ["oate"]), ("fp766", 16, ["oate"]),
+         ("fp768", 18, ["oate"])]
+XSMALL = ["0", "1", "2", "3", "-1", "-2", "r", "r-1", "r+1", "r*2", "5"]
+
+
+def gen_sweep_cases(rng, fams, quick, first):
+    """segments of <= 8 events per pairing family, each starting with the pairing of the generators;
+    small |a b| keeps the specification side to a few GT products"""
+    cases = []
+    if quick:
+        # one segment: the reference, six bilinearity / identity events, three multi-pairings (identity of G1 first,
+        # identity of G2 in the middle, the empty list)
+        body = ["pc_map 0 0 1 0 1", "oatep 0 0 1 r 2", "pc_map 0 0 1 -1 1", "oatep 0 0 1 2 3", "pc_map 0 2 1 r-1 r-1",
+                "oatep 0 0 1 2 r", "pc_map_sim 0 0 2 r 1 2 3", "sim_oatep 0 2 3 1 2 5 0 3 -1", "pc_map_sim 0 0 0"]
+        rng.shuffle(body)
+        return [("pc_map 0 0 1 1 1", "oate#0", True)] + [(ln, "oate#0", False) for ln in body]
+    for fam in fams:
+        ref, singles, sims = FAMS[fam]
+        body = []
+        main = fam == "oate"
+        pairs = [(a, b) for a in XSMALL for b in ("1", "2", "-1", "0", "3", "r")] + \
+                [(b, a) for a in XSMALL for b in ("1", "2", "r+1")]
+        rng.shuffle(pairs)
+        must = [("0", "1"), ("1", "0"), ("r", "2"), ("2", "r"), ("-1", "1"), ("r-1", "r-1"), ("2", "3"), ("r*2", "1")]
+        sel = (must if main else must[:4]) + pairs[:(2 if quick else (10 if main and first else 4))]
+        for j, (a, b) in enumerate(sel):
+            body.append("%s 0 %d 1 %s %s" % (singles[j % len(singles)], rng.choice([0, 0, 3]), a, b))
+        body.append("%s 0 2 1 2 2" % singles[0])            # projective inputs, equal logarithms
+        body.append("%s 0 0 1 -1 -1" % singles[-1])
+        if main and first and not quick:
+            body.append("%s 0 0 1 %x %x" % (singles[0], rng.getrandbits(200), rng.getrandbits(200)))   # one full-size pair
+        # multi-pairings: lengths 0..3(4), identities at arbitrary positions
+        lens = [0, 1, 2, 2, 3, 3] + ([4, 2, 3] if main and not quick else [])
+        if quick:
+            lens = [0, 2, 3]
+        for jn, n in enumerate(lens):
+            toks = []
+            for j in range(n):
+                a, b = rng.choice(XSMALL[:8]), rng.choice(XSMALL[:8])
+                if rng.random() < 0.3:
+                    a = rng.choice(["0", "r"])
+                if rng.random() < 0.25:
+                    b = rng.choice(["0", "r"])
+                toks += [a, b]
+            if n >= 2 and jn % 2 == 0:
+                j = rng.randrange(n)            # an identity pair inside the list, at an arbitrary position
+                toks[2 * j + rng.randrange(2)] = rng.choice(["0", "r"])
+            body.append("%s 0 %d %d %s" % (sims[jn % len(sims)], rng.choice([0, 0, 2]), n, " ".join(toks)))
+        rng.shuffle(body)
+        CH = 8
+        for c in range(0, len(body), CH):
+            tag = "%s#%d" % (fam, c // CH)
+            cases.append(("%s 0 0 1 1 1" % ref, tag, True))
+            for ln in body[c:c + CH]:
+                cases.append((ln, tag, False))
+    return cases
+
+
+def run_sweep(ev, conf, tier, rng):
+    import os
+    quick = tier == "quick"
+    only = os.environ.get("C04_EXT_ONLY")
+    todo = [s for s in SWEEP if (s[0] == "fp315" if quick else True)]
+    if only:
+        todo = [s for s in SWEEP if s[0] in only.split(",")]
+    ev.cov["rule_sweep"] = ("field-size sweep (k = 8, 16, 18, 24, 48; PpxSpec): per (build, pairing family) segments of <= 8 events "
+                            "starting with e(G1,G2); [a]G1 x [b]G2 with a, b over {0, 1, 2, 3, 5, -1, -2, r, r+-1, 2r}, one "
+                            "full-size pair per k, projective inputs, multi-pairings of length 0..4 with identity pairs at "
+                            "arbitrary positions through pc_map / pc_map_sim and the pp_map_*_k<N> forms of that k; a build "
+                            "whose parameter selection fails on the unchanged tree is recorded as skipped")
+    core.run_models(ev, [("MCPairSim", "MCPairSim", "identity-pair compaction of pp_map_sim_*: product over the compacted list "
+                          "= product over the full list, lists of length 0..3 over Z_3 x Z_3", False)])
+    seen_k = set()
+    for cfg, k, fams in todo:
+        label = "sweep-" + cfg
+        try:
+            bdir = core.build_relic(cfg)
+            exe = core.cc_harness(cfg, "ppx", ["drv_ppx.c"], bdir=bdir)
+        except core.InfraError as ex:
+            ev.cov["parts"][label] = dict(skipped="build failed: " + str(ex)[-200:])
+            continue
+        d = os.path.join(conf.wd if hasattr(conf, "wd") else core.workdir("C04", tier), "info-" + cfg)
+        os.makedirs(d, exist_ok=True)
+        open(os.path.join(d, "c.txt"), "w").write("info\n")
+        info = core.run_driver(exe, os.path.join(d, "c.txt"), os.path.join(d, "t.ndjson"))
+        if not info or info[0].get("op") != "info" or info[0].get("ok") != 1:
+            ev.cov["parts"][label] = dict(skipped="pc_param_set_any() selects no pairing-friendly parameter set of embedding "
+                                                  "degree %d in this build on the unchanged tree" % k)
+            continue
+        first = k not in seen_k
+        seen_k.add(k)
+        # the Tate / Weil forms are judged in a run of their own: a rejection there must not cut an optimal-ate segment short
+        for part, pf in (("", ["oate"]), ("-tw", [f for f in fams if f != "oate"] if first and not quick else [])):
+            if pf:
+                _sweep_run(conf, label + part, cfg, gen_sweep_cases(rng, pf, quick, first))
+
+
+def _sweep_run(conf, label, cfg, triples):
+    tags = [t[1] for t in triples]
+    starts = set(i for i, t in enumerate(triples) if t[2])
+    uniq = ["%s #%d" % (t[0], i) if i in starts else t[0] for i, t in enumerate(triples)]
+    seg_lines = set(u for i, u in enumerate(uniq) if i in starts)
+
+    def emap(e, tags=tags):
+        if 0 <= e.get("i", -1) < len(tags):
+            e["fam"] = tags[e["i"]]
+        return e
+    conf.run(label, cfg, "ppx", ["drv_ppx.c"], uniq, "trace/PpxTrace.tla", shards=4,
+             case_seg_start=lambda ln, S=seg_lines: ln in S, event_map=emap,
+             nontrivial=lambda e: not (e.get("n") == 1 and e.get("zm") == 0 and
+                                       e.get("pairs", [{}])[0].get("a", {}).get("d", [])[:1] == [1] and
+                                       not any(e["pairs"][0]["a"]["d"][1:]) and
+                                       e["pairs"][0]["b"]["d"][:1] == [1] and not any(e["pairs"][0]["b"]["d"][1:])),
+             min_per_shard=8, tlc_timeout=3000, heap="3g")
 
 
 def replay(path, seed):
